@@ -34,7 +34,7 @@ CONSTANTS Procs,      \* process ids (naturals 1..P)
           MaxN,       \* size of the node pool
           Menu,       \* set of operations a process may be given
           InitTrees,  \* set of initial contents: sets of <<path, value>>
-          Mutant      \* "none" | "no_recheck" | "early_release" | "visitor_value" | "delete_no_node_locks"
+          Mutant      \* "none" | "no_recheck" | "early_release" | "visitor_value" | "delete_no_node_locks" | "terminal_check_unlocked"
 
 Names  == {"a", "b", "c"}
 Nodes  == 1..MaxN
@@ -167,8 +167,21 @@ ChainNodes(free, k) == IF k = 0 THEN <<>> ELSE
 
 AddStart(i) ==
     /\ P(i).op = "add" /\ P(i).ph = "start"
-    /\ Set(i, [P(i) EXCEPT !.ph = IF P(i).rest = <<>> THEN "t_ann" ELSE "i_rlock"])
+    /\ Set(i, [P(i) EXCEPT !.ph = IF P(i).rest = <<>> THEN (IF Mutant = "terminal_check_unlocked" THEN "t_check" ELSE "t_ann") ELSE "i_rlock"])
     /\ UNCHANGED <<kind, val, kids, rd, ann, wr, abs, raced>>
+
+\* mutant: terminalAdd rejects a branch under the read lock only and does not look again under the write lock
+AddTCheck(i) ==
+    LET n == P(i).cur IN
+    /\ P(i).op = "add" /\ P(i).ph = "t_check"
+    /\ CanRLock(n)
+    /\ raced' = (raced \/ ReadRace(i, n))
+    /\ IF kind[n] = "branch"
+       THEN /\ ReleaseAll(i)
+            /\ Set(i, [P(i) EXCEPT !.ph = "done", !.held = {}, !.res = "err"])
+       ELSE /\ Set(i, [P(i) EXCEPT !.ph = "t_ann"])
+            /\ UNCHANGED <<rd, wr, ann>>
+    /\ UNCHANGED <<kind, val, kids, abs>>
 
 \* intermediateAdd: read lock, inspect the child
 AddILook(i) ==
@@ -231,7 +244,7 @@ AddTWrite(i) ==
     LET n == P(i).cur IN
     /\ P(i).op = "add" /\ P(i).ph = "t_write"
     /\ raced' = (raced \/ WriteRace(i, n))
-    /\ IF kind[n] = "branch"
+    /\ IF kind[n] = "branch" /\ Mutant # "terminal_check_unlocked"
        THEN UNCHANGED <<kind, val, abs>>
        ELSE /\ kind' = [kind EXCEPT ![n] = "leaf"]
             /\ val' = [val EXCEPT ![n] = P(i).v]
@@ -240,7 +253,7 @@ AddTWrite(i) ==
                       THEN {x \in abs : x[1] # P(i).path} \cup {<<P(i).path, P(i).v>>}
                       ELSE abs \cup {<<P(i).path, P(i).v>>}   \* claimed success on a detached node: abs and Reach differ from now on
     /\ ReleaseAll(i)
-    /\ Set(i, [P(i) EXCEPT !.ph = "done", !.held = {}, !.res = IF kind[n] = "branch" THEN "err" ELSE "ok"])
+    /\ Set(i, [P(i) EXCEPT !.ph = "done", !.held = {}, !.res = IF kind[n] = "branch" /\ Mutant # "terminal_check_unlocked" THEN "err" ELSE "ok"])
     /\ UNCHANGED kids
 
 ---------------------------------------------------------------------------
@@ -385,7 +398,7 @@ DelDetach(i) ==
 
 Step(i) ==
     \/ AddStart(i) \/ AddILook(i) \/ AddIAnn(i) \/ AddIGrant(i) \/ AddISlow(i)
-    \/ AddTAnn(i) \/ AddTGrant(i) \/ AddTWrite(i)
+    \/ AddTCheck(i) \/ AddTAnn(i) \/ AddTGrant(i) \/ AddTWrite(i)
     \/ ReadStep(i) \/ QueryValue(i) \/ QueryRet(i)
     \/ HandleValue(i) \/ HandleAnn(i) \/ HandleGrant(i) \/ HandleWrite(i)
     \/ DelAnn(i) \/ DelGrant(i) \/ DelWalk(i) \/ DelNAnn(i) \/ DelNGrant(i)
